@@ -337,9 +337,11 @@ def _history(name, regime, steps, tier):
 
 for _n, _r in (("static.rectangle", "normal"), ("static.circle", "tiny"), ("dynamic.trajectory.KS", "tiny")):
     _history(_n, _r, 3, "quick")
-for _n, _r in (("planning.rectangle", "normal"), ("lanelets", "normal"), ("dynamic.setbased-phantom-environment", "normal"), ("signs-lights", "normal")):
-    _history(_n, _r, 3, "thorough")
-for _n, _r in (("static.rectangle", "normal"), ("static.polygon", "tiny"), ("dynamic.trajectory.KS", "normal")):
+# (skeletons with many discrete alternatives of their own multiply the histories: they get 2 steps, the light ones 4)
+for _n, _r in (("planning.rectangle", "normal"), ("lanelets", "normal"), ("dynamic.setbased-phantom-environment", "normal"), ("signs-lights", "normal"),
+               ("static.polygon", "tiny")):
+    _history(_n, _r, 2, "thorough")
+for _n, _r in (("static.rectangle", "normal"), ("static.circle", "tiny"), ("dynamic.trajectory.KS", "normal")):
     _history(_n, _r, 4, "thorough")
 
 
